@@ -235,13 +235,11 @@ func (l *LSTM) Apply(inputs []tensor.Tensor) ([]tensor.Tensor, error) {
 		return nil, err
 	}
 
-	outputMap := map[string]tensor.Tensor{
-		"Y": Y, "Y_h": Yh, "Y_c": Yc,
-	}
-
-	result := []tensor.Tensor{}
-	for _, outputName := range l.outputs {
-		result = append(result, outputMap[outputName])
+	// ONNX binds the outputs of a node by position (Y, Y_h, Y_c; trailing ones may
+	// be omitted), whatever the node calls them.
+	result := []tensor.Tensor{Y, Yh, Yc}
+	if len(l.outputs) < len(result) {
+		result = result[:len(l.outputs)]
 	}
 
 	return result, nil
